@@ -326,9 +326,34 @@ fn timestamp_soup() -> BoxedStrategy<Vec<u8>> {
         .boxed()
 }
 
+/// Hayson scalars assembled from parts: every `_kind` name (also the four that are kinds but have no object form)
+/// with members from a small pool, and dateTime objects whose `val` is a timestamp from the boundary soup (without
+/// a zone name), with or without `tz`
+fn hayson_soup() -> BoxedStrategy<Vec<u8>> {
+    let kind = prop::sample::select(vec!["marker", "na", "remove", "number", "ref", "uri", "symbol", "date", "time", "dateTime", "coord", "xstr", "dict", "grid", "str", "bool", "list", "null", "Number", ""]);
+    let member = prop::sample::select(vec![
+        "", ",\"val\":1", ",\"val\":\"x\"", ",\"val\":true", ",\"val\":[1]", ",\"val\":null", ",\"val\":\"NaN\",\"unit\":\"kW\"", ",\"dis\":\"d\"", ",\"type\":\"T\",\"val\":\"v\"",
+        ",\"lat\":1,\"lng\":{\"_kind\":\"number\",\"val\":\"INF\"}", ",\"cols\":[],\"rows\":[]", ",\"tz\":\"New_York\"", ",\"val\":\"12:00:60\"", ",\"val\":\"2021-02-30\"",
+    ]);
+    let stamp = (timestamp_text(), prop::sample::select(vec!["", ",\"tz\":\"New_York\"", ",\"tz\":\"UTC\"", ",\"tz\":\"Nowhere\"", ",\"tz\":\"\""])).prop_map(|(ts, tz)| {
+        let bare = ts.split(' ').next().unwrap_or("").to_string();
+        format!("{{\"_kind\":\"dateTime\",\"val\":\"{bare}\"{tz}}}")
+    });
+    let obj = prop_oneof![3 => (kind, member).prop_map(|(k, m)| format!("{{\"_kind\":\"{k}\"{m}}}")), 2 => stamp];
+    (obj, 0u8..4)
+        .prop_map(|(o, wrap)| match wrap {
+            0 => o,
+            1 => format!("[{o}]"),
+            2 => format!("{{\"a\":{o},\"b\":{o}}}"),
+            _ => format!("{{\"_kind\":\"grid\",\"cols\":[{{\"name\":\"a\"}}],\"rows\":[{{\"a\":{o}}}]}}"),
+        }.into_bytes())
+        .boxed()
+}
+
 fn doc_strategy(depth: u32) -> BoxedStrategy<Doc> {
     let muts = || mutate::mutations(3);
     prop_oneof![
+        2 => hayson_soup().prop_map(|bytes| Doc { bytes, plan: ReaderPlan::default(), origin: "hayson-soup".into() }),
         2 => (timestamp_soup(), plan(true)).prop_map(|(bytes, plan)| Doc { bytes, plan, origin: "zinc-timestamp-soup".into() }),
         2 => (escape_soup(), plan(false)).prop_map(|(bytes, plan)| Doc { bytes, plan, origin: "zinc-escape-soup".into() }),
         3 => (arbitrary_bytes(), plan(true)).prop_map(|(bytes, plan)| Doc { bytes, plan, origin: "arbitrary-bytes".into() }),
@@ -667,7 +692,7 @@ fn run_ladder(ctx: &mut Ctx) {
 }
 
 pub fn run(ctx: &mut Ctx) {
-    ctx.rule("inputs: arbitrary bytes (uniform and biased to the Zinc/JSON alphabets and token dictionaries), grammar-generated valid Zinc/Hayson documents, every prefix of them (<= 320 B, exhaustively), 1-3 mutations (bit flip/insert/delete/duplicate/token splice/truncate/line-ending rewrite/extra or missing cell/deleted or duplicated line/unbalanced bracket), damaged and truncated grids, timestamps assembled from boundary parts (skipped / repeated local hours, range ends, leap seconds, offsets in and out of range, known / unknown zone names), windows of the repository's corpus files truncated and mutated, and a nesting ladder 1..131072 (powers of two and the band around the 128 / 256 level limits) for 11 openers closed and unclosed in child processes on the main and a 2 MiB thread stack (the band 200-257 also with the unoptimised build of the harness, whose frames are the large ones); readers: from_str, Parser::parse_value and parse_grid_iterator (to the first Err/None) over readers with generated chunk sizes, Interrupted returns, I/O faults of seven error kinds (once, for ever, or a timeout on every n-th call after which the caller asks again: up to 24 more parse_value calls / 48 more rows pulled), serde_json from_slice/from_str; oracle: returns Ok or Err - no panic, no fuel exhaustion (64*(len+16) scanner/lexer reads), no abort, no confirmed hang; non-trivial: input not empty and not merely a bare scalar; distinct by input hash");
+    ctx.rule("inputs: arbitrary bytes (uniform and biased to the Zinc/JSON alphabets and token dictionaries), grammar-generated valid Zinc/Hayson documents, every prefix of them (<= 320 B, exhaustively), 1-3 mutations (bit flip/insert/delete/duplicate/token splice/truncate/line-ending rewrite/extra or missing cell/deleted or duplicated line/unbalanced bracket), damaged and truncated grids, Hayson objects of every `_kind` name with members from a pool and dateTime objects around boundary timestamps, timestamps assembled from boundary parts (skipped / repeated local hours, range ends, leap seconds, offsets in and out of range, known / unknown zone names), windows of the repository's corpus files truncated and mutated, and a nesting ladder 1..131072 (powers of two and the band around the 128 / 256 level limits) for 11 openers closed and unclosed in child processes on the main and a 2 MiB thread stack (the band 200-257 also with the unoptimised build of the harness, whose frames are the large ones); readers: from_str, Parser::parse_value and parse_grid_iterator (to the first Err/None) over readers with generated chunk sizes, Interrupted returns, I/O faults of seven error kinds (once, for ever, or a timeout on every n-th call after which the caller asks again: up to 24 more parse_value calls / 48 more rows pulled), serde_json from_slice/from_str; oracle: returns Ok or Err - no panic, no fuel exhaustion (64*(len+16) scanner/lexer reads), no abort, no confirmed hang; non-trivial: input not empty and not merely a bare scalar; distinct by input hash");
     ctx.assume("fuel ticks at every Scanner::read / Lexer::read (hook) bound every parsing loop; what the row iterator does after its first error is not asserted");
     let depth = ctx.tier.pick(2, 3) as u32;
     run_ladder(ctx);
